@@ -255,6 +255,62 @@ def canon_marked(root, value, deep, original_buildable_ids):
 ORIGINAL_CONTAINER_IDS = set()
 
 
+class Tok:
+  """A class with an alternative constructor: `Tok.from_vocab` is a new bound-method object at every access,
+  equal (==) but not identical to the one stored in a configuration."""
+
+  def __init__(self, size=0):
+    self.size = size
+
+  @classmethod
+  def from_vocab(cls, vocab=(), size=1):
+    return cls(size + len(vocab))
+
+  def make(self, size=2):
+    return Tok(size + self.size)
+
+
+class SubTok(Tok):
+  pass
+
+
+REGISTRY = Tok(10)
+
+
+def method_callable_cases(rng, res):
+  """Callables that are methods: the callable of a node *is* F when it is the same method of the same
+  class / instance, although every attribute access creates a new method object."""
+  for j in range(6):
+    f = rng.choice([lambda: Tok.from_vocab, lambda: REGISTRY.make])
+    other = rng.choice([lambda: SubTok.from_vocab, lambda: Tok(3).make, lambda: l2.fa])
+    mk = lambda g, **kw: rng.choice([fdl.Config, fdl.Partial])(g(), **kw)
+    m1, m2, m3 = mk(f, size=1), mk(f, size=2), mk(f)
+    o1, o2 = mk(other), mk(other)
+    root = fdl.Config(l2.fd, x=[m1, o1, m1], y={"k": m2, "o": o2}, z=(m3, o1), w=fdl.Config(l2.fa, m2, b=o2))
+    want = [m1, m2, m3]
+    res.evaluations += 1
+    res.count("method-callable")
+    replay = {"label": f"method-callable#{j}", "root": repr(root)[:1200], "fn": repr(f())}
+    problems = []
+    got = list(selectors.select(root, f(), check_nonempty=False))
+    if sorted(map(id, got)) != sorted(map(id, want)):
+      problems.append(f"select by a method yielded {len(got)} nodes, {len(want)} have that callable")
+    else:
+      part = list(selectors.select(root, f(), buildable_type=fdl.Partial, check_nonempty=False))
+      if sorted(map(id, part)) != sorted(id(x) for x in want if isinstance(x, fdl.Partial)):
+        problems.append("buildable_type filter with a method callable")
+      selectors.select(root, f(), check_nonempty=False).set(size=99)
+      if any(x.size != 99 for x in want) or any("size" in x.__arguments__ for x in (o1, o2)):
+        problems.append(".set through a method selection did not assign on exactly the matching nodes")
+      selectors.select(root, f(), check_nonempty=False).replace(4242)
+      if not (root.x[0] == 4242 and root.x[2] == 4242 and root.y["k"] == 4242 and root.z[0] == 4242
+              and root.w.__arguments__.get("a", root.w.__arguments__.get(0)) == 4242
+              and root.x[1] is o1 and root.y["o"] is o2 and root.z[1] is o1):
+        problems.append(".replace through a method selection did not substitute exactly the matching nodes")
+    for p_ in problems[:1]:
+      res.failures.append(Failure(None, f"C15 method-callable#{j}: {p_}", replay))
+
+
 def run(tier: str, seed: int) -> Result:
   rng = random.Random(seed * 160481183 + 15)
   res = Result()
@@ -282,4 +338,5 @@ def run(tier: str, seed: int) -> Result:
       root = fdl.Config(l2.fd, x=root, extra=extra)
     c14.tag_positional(rng, root)
     one_case(rng, res, intern, stream, root, f"dag#{i}")
+  method_callable_cases(rng, res)
   return res
